@@ -37,19 +37,21 @@ META = {
     "level_text": "Kernel-checked: opsetLegal_sound (accepted ⇒ every node at every depth, function bodies included, "
                   "uses an operator whose signature in force at the declared opset admits its input/output counts "
                   "and attribute names; calls resolve; function imports complete and not newer), sigAt_inForce, "
-                  "function_imports_complete; reduce_gate_legal / swish_gate_legal / gate_programs_legal_partial for "
+                  "function_imports_complete, nested_functions_honour (call chains of any length), typesLegal_sound "
+                  "(input/output element types and type variables, attribute types, required attributes); "
+                  "gate_sites_legal_partial (every plugin module comparing the opset, through its own testcases); reduce_gate_legal / swish_gate_legal / gate_programs_legal_partial for "
                   "EVERY opset 21..max over tables regenerated from the live code; machine-checked refutation "
                   "witnesses for CumProd / BitCast below opset 26.",
     "level_note": "PARTIAL: the gates are proved for the tabulated catalogue; the operator sets of the ~600 plugins "
                   "are checked PER EXPORT by the proven checker (seeded sample of testcases × opsets in quick, all "
-                  "testcases in thorough) – sampled, not proved. Attribute VALUES and input TYPES are left to "
+                  "testcases in thorough) – sampled, not proved. Attribute VALUES are left to "
                   "onnx.checker/ORT (oracles). Opsets 13..20 are explored and only reported. Trusted: onnx.defs as "
                   "the definition of each opset, the translators, Lean's interpreter for per-model runs. Known "
                   "genuine defects (CumProd/BitCast emitted below opset 26) are listed in known_findings.d/C11.json.",
     "design_ref": "DESIGN.md §3 C11",
 }
 
-MODS = ["J2O.Props.C11", "J2O.GenProps.C11"]
+MODS = ["J2O.Props.C11", "J2O.GenProps.C11", "J2O.GenProps.C11Reduce", "J2O.GenProps.C11Gate", "J2O.GenProps.C11Sites"]
 
 GATE_PROGRAMS = ["reduce", "softmax_ln", "tree:silu_swish", "tree:reduce_in_loop", "gate:rms_norm",
                  "gate:dus", "gate:reduce_window", "gate:logsumexp", "gate:l2", "fn_mix", "int_ops"]
@@ -63,6 +65,10 @@ GATE_PROGRAMS += [f"gated:{c}@top:bf16/{m}" for c in ("rms_linen", "ln_linen", "
 GATE_PROGRAMS += ["gated:rms_linen@top:f16/prefer_native", "gated:rms_linen@top:f16/auto",
                   "gated:iota@top:bf16", "gated:arange@top:bf16", "gated:arange_dyn@top:bf16", "gated:iota@fori:bf16",
                   "gated:rms_linen@scan:bf16/prefer_native"]
+
+# opset-gated components inside @onnx_function bodies / nested functions (harness/c11_fnprogs.py)
+_FN_PROGS = ["xsig", "silu", "gelu", "rms", "meanvar", "softmax", "dus", "iota", "loop", "outer", "outer2"]
+GATE_PROGRAMS += [f"c11fn:{k}" for k in _FN_PROGS]
 
 # float16 works only for these components at top level on the unchanged tree (see notes/C11.md)
 F16_CLEAN = ["rms_nnx", "ln_nnx", "rms_linen", "ln_linen", "silu", "xsig", "gelu", "cumsum"]
@@ -91,6 +97,11 @@ def _gate_desc(name: str) -> dict:
         return {"kind": "tree", "name": k, "tree": progs.FIXED_TREES[k], "shape": ["B", 3]}
     if name.startswith("gate:"):
         _register_gate_named()
+        return {"kind": "named", "name": name}
+    if name.startswith("c11fn:"):
+        import c11_fnprogs
+        reg = c11_fnprogs.register()
+        assert name in reg, name
         return {"kind": "named", "name": name}
     return {"kind": "named", "name": name}
 
@@ -135,37 +146,11 @@ def _register_gate_named() -> None:
 # ----------------------------------------------------------------------------- tables (T)
 
 
-def _type_code(ts: str):
-    """'tensor(float)' -> 1; non-tensor type strings -> None"""
-    from onnx import TensorProto
-    if not ts.startswith("tensor(") or not ts.endswith(")"):
-        return None
-    return getattr(TensorProto, ts[7:-1].upper(), None)
-
-
 def tab_schemas() -> dict:
-    import onnx
-    hist: dict = {}
-    for s in onnx.defs.get_all_schemas_with_history():
-        if s.domain not in ("", "ai.onnx"):
-            continue
-        in_types, in_vars, var_ids = [], [], {}
-        for fi in s.inputs:
-            codes = [_type_code(t) for t in fi.types]
-            if any(c is None for c in codes):
-                in_types.append([])                    # sequences / optionals: unconstrained here
-            else:
-                in_types.append(sorted(int(c) for c in codes))
-            homog = getattr(fi, "is_homogeneous", True)
-            if len(fi.types) > 1 and homog and all(c is not None for c in codes):
-                in_vars.append(var_ids.setdefault(fi.type_str, len(var_ids) + 1))
-            else:
-                in_vars.append(0)
-        variadic = bool(s.inputs) and s.inputs[-1].option == onnx.defs.OpSchema.FormalParameterOption.Variadic
-        hist.setdefault(s.name, []).append(
-            (int(s.since_version), int(s.min_input), int(s.max_input), int(s.min_output), int(s.max_output),
-             bool(s.deprecated), sorted(s.attributes.keys()), in_types, in_vars, variadic))
-    return {k: sorted(v, key=lambda r: r[0]) for k, v in sorted(hist.items())}
+    import c11_gates
+    if not c11_gates.attr_type_codes_aligned():
+        raise RuntimeError("onnx.defs AttrType codes differ from AttributeProto.AttributeType codes")
+    return c11_gates.schema_rows()
 
 
 def tab_reduce(max_opset: int) -> tuple[list, list]:
@@ -201,7 +186,54 @@ def tab_swish(max_opset: int) -> list:
     return rows
 
 
+def tab_gate_sites(max_opset: int) -> dict:
+    """Every plugin module of the live tree that compares the opset with a literal (source scan ∪ the sites known on
+    the pinned tree ∪ the callers of the shared reduce gate), exercised through ITS OWN plugin testcases at EVERY
+    opset 21..max: the distinct typed node forms, which (site testcase, opset) exported / raised, and per site the
+    operator set chosen at each opset (the gate decision)."""
+    import c11_gates
+    import progs
+    gs = c11_gates.gate_sites(progs.BASELINE_OPSET, max_opset)
+    forms: set = set()
+    exported, raised, names, decisions, descs = [], [], [], {}, {}
+    for site in gs["sites"]:
+        if not site["in_range"]:
+            continue
+        helper_only = not site["thresholds"] and site["module"] not in c11_gates.KNOWN_SITE_MODULES
+        for tp in site["testcases"][:1 if helper_only else 4]:
+            name = f"{site['module'].replace('jax2onnx.plugins.', '')}:{tp['testcase']}"
+            if name in descs:
+                continue
+            names.append(name)
+            descs[name] = tp
+            for v in range(progs.BASELINE_OPSET, max_opset + 1):
+                ex = progs.export(progs.plugin_desc(tp), progs.plugin_cfg(tp, opset=v))
+                if not ex.ok:
+                    raised.append((name, v, ex.error[:80]))
+                    continue
+                exported.append((name, v))
+                tree = c11_gates.typed_tree(ex.proto)
+                ops = set()
+                for _, n, dts, odts in c11_gates.iter_forms(tree):
+                    if n["d"] == "":
+                        ops.add(n["op"])
+                        forms.add((v, n["op"], len(n["i"]), len(n["o"]), tuple(sorted(n["a"])), tuple(dts), tuple(odts)))
+                decisions.setdefault(name, []).append((v, sorted(ops)))
+    flips = {}
+    for name, rows in decisions.items():
+        fl = []
+        for (v0, o0), (v1, o1) in zip(rows, rows[1:]):
+            if o0 != o1:
+                fl.append({"at": v1, "gone": sorted(set(o0) - set(o1)), "new": sorted(set(o1) - set(o0))})
+        if fl:
+            flips[name] = fl
+    return {"forms": sorted(forms), "exported": exported, "raised": raised, "names": names, "descs": descs,
+            "flips": flips, "not_in_range": [s_["module"] for s_ in gs["sites"] if not s_["in_range"]],
+            "no_testcases": gs["no_testcases"], "scanned": gs["scanned"]}
+
+
 def tab_gate_programs(max_opset: int) -> dict:
+    import c11_gates
     import modeltree
     import progs
     forms: set = set()
@@ -214,10 +246,10 @@ def tab_gate_programs(max_opset: int) -> dict:
                 raised.append((name, v, ex.error[:80]))
                 continue
             exported.append((name, v))
-            tree = modeltree.from_proto(ex.proto, with_vinfo=True)
-            for _, n, dts in modeltree.iter_nodes_typed(tree):
+            tree = c11_gates.typed_tree(ex.proto)
+            for _, n, dts, odts in c11_gates.iter_forms(tree):
                 if n["d"] == "":
-                    forms.add((v, n["op"], len(n["i"]), len(n["o"]), tuple(sorted(n["a"])), tuple(dts)))
+                    forms.add((v, n["op"], len(n["i"]), len(n["o"]), tuple(sorted(n["a"])), tuple(dts), tuple(odts)))
     full = [p for p in GATE_PROGRAMS
             if all((p, v) in set(exported) for v in range(progs.BASELINE_OPSET, max_opset + 1))]
     return {"forms": sorted(forms), "exported": exported, "raised": raised, "programs": full}
@@ -228,7 +260,7 @@ def tabulate() -> dict:
     mx = progs.max_opset()
     red, since = tab_reduce(mx)
     return {"max": mx, "schemas": tab_schemas(), "reduce": red, "since": since, "swish": tab_swish(mx),
-            "gate": tab_gate_programs(mx)}
+            "gate": tab_gate_programs(mx), "sites": tab_gate_sites(mx)}
 
 
 def _form(f) -> str:
@@ -238,27 +270,54 @@ def _form(f) -> str:
 
 def _tform(f) -> str:
     """typed form: the plain form plus the declared dtype code of every input (0 = not declared)"""
-    op, ni, no, attrs, dts = f
+    op, ni, no, attrs, dts, odts = f
     return (f"({lean_str(op)}, {ni}, {no}, [{', '.join(lean_str(a) for a in attrs)}], "
-            f"[{', '.join(str(int(d)) for d in dts)}])")
+            f"[{', '.join(str(int(d)) for d in dts)}], [{', '.join(str(int(d)) for d in odts)}])")
+
+
+def _grouped(forms: list) -> str:
+    """typed forms grouped by operator: [(op, [(opset, #in, #out, [attrs], [in dtypes], [out dtypes]), …]), …]"""
+    by_op: dict = {}
+    for v, op, ni, no, at, dts, odts in forms:
+        by_op.setdefault(op, []).append(
+            f"({v}, {ni}, {no}, [{', '.join(lean_str(a) for a in at)}], [{', '.join(str(int(d)) for d in dts)}], "
+            f"[{', '.join(str(int(d)) for d in odts)}])")
+    return lean_list([f"({lean_str(op)}, [{', '.join(rows)}])" for op, rows in sorted(by_op.items())], 1)
 
 
 def generate(tabs: Optional[dict] = None) -> dict:
     tabs = tabs or tabulate()
 
     def sig(s):
-        since, mi, ma, mo, mxo, dep, attrs, in_types, in_vars, variadic = s
+        since, mi, ma, mo, mxo, dep, attrs, in_types, in_vars, variadic, attr_ty, required, out_types, out_vars, \
+            variadic_out = s
         tys = ", ".join("[" + ", ".join(str(c) for c in l) + "]" for l in in_types)
+        otys = ", ".join("[" + ", ".join(str(c) for c in l) + "]" for l in out_types)
+        aty = ", ".join(f"({lean_str(a)}, {t})" for a, t in attr_ty)
         return (f"⟨{since}, {mi}, {ma}, {mo}, {mxo}, {lean_bool(dep)}, [{', '.join(lean_str(a) for a in attrs)}], "
-                f"[{tys}], [{', '.join(str(v) for v in in_vars)}], {lean_bool(variadic)}⟩")
+                f"[{tys}], [{', '.join(str(v) for v in in_vars)}], {lean_bool(variadic)}, [{aty}], "
+                f"[{', '.join(lean_str(a) for a in required)}], [{otys}], [{', '.join(str(v) for v in out_vars)}], "
+                f"{lean_bool(variadic_out)}⟩")
 
     sch = ",\n  ".join(f"({lean_str(op)}, [{', '.join(sig(s) for s in sigs)}])"
                        for op, sigs in tabs["schemas"].items())
     red = lean_list([f"({v}, {_form((op, ni, no, at))})" for v, op, ni, no, at in tabs["reduce"]], 3)
     sw = lean_list([f"({v}, [{', '.join(_form(f) for f in fs)}])" for v, fs in tabs["swish"]], 1)
-    gf = lean_list([f"({v}, {_tform((op, ni, no, list(at), list(dts)))})"
-                    for v, op, ni, no, at, dts in tabs["gate"]["forms"]], 2)
-    ge = lean_list([f"({lean_str(p)}, {v})" for p, v in tabs["gate"]["exported"]], 6)
+    def runs(names, exported, raised=None):
+        ex, ra = {}, {}
+        for p_, v in exported:
+            ex.setdefault(p_, []).append(v)
+        for p_, v, *_ in (raised or []):
+            ra.setdefault(p_, []).append(v)
+        order = list(dict.fromkeys(list(names) + list(ex) + list(ra)))
+        if raised is None:
+            return lean_list([f"({lean_str(p_)}, {sorted(ex.get(p_, []))})" for p_ in order], 2)
+        return lean_list([f"({lean_str(p_)}, {sorted(ex.get(p_, []))}, {sorted(ra.get(p_, []))})" for p_ in order], 2)
+
+    gf = _grouped(tabs["gate"]["forms"])
+    sf = _grouped(tabs["sites"]["forms"])
+    se = runs(tabs["sites"]["names"], tabs["sites"]["exported"], tabs["sites"]["raised"])
+    ge = runs(GATE_PROGRAMS, tabs["gate"]["exported"])
     src = f"""/- GENERATED by harness/props/c11.py from the installed onnx.defs and /repo on every run — do not edit. -/
 import J2O.Model.C11
 namespace J2O.Gen.C11
@@ -268,7 +327,8 @@ open J2O.C11
 def maxOpset : Nat := {tabs['max']}
 
 /-- operator ↦ versions ⟨since, minIn, maxIn, minOut, maxOut, deprecated, attribute names, admitted dtype codes
-    per formal input, type-variable id per formal input, last input variadic⟩ (onnx.defs) -/
+    per formal input, type-variable id per formal input, last input variadic, attribute types, required
+    attributes, admitted dtype codes / type-variable id per formal output, last output variadic⟩ (onnx.defs) -/
 def schemas : Schemas := [
   {sch}]
 
@@ -284,12 +344,24 @@ def swishForms : List (Nat × List (String × Nat × Nat × List String)) := {sw
 /-- gate programs that export at every opset 21..max -/
 def gatePrograms : List String := {lean_list([lean_str(p) for p in tabs['gate']['programs']], 6)}
 
-/-- (program, opset) pairs exported by the live `to_onnx` -/
-def gateExports : List (String × Nat) := {ge}
+/-- program ↦ opsets at which the live `to_onnx` exported it (in catalogue order) -/
+def gateExports : List (String × List Nat) := {ge}
 
-/-- distinct default-domain node forms (any depth, function bodies included) of those exports, with the
-    declared dtype code of every input (0 = not declared) -/
-def gateForms : List (Nat × String × Nat × Nat × List String × List Nat) := {gf}
+/-- distinct default-domain node forms (any depth, function bodies included) of those exports, grouped by operator
+    (`op ↦ rows (opset, #in, #out, attributes, input dtypes, output dtypes)`): attributes as
+    `name:AttributeType`, the declared dtype code of every input and of every output (0 = not declared) -/
+def gateForms : List (String × List (Nat × Nat × Nat × List String × List Nat × List Nat)) := {gf}
+
+/-- gate sites: `<plugin module>:<testcase>` for every plugin module of the live tree that compares the opset with
+    a literal (or calls the shared reduce gate), exercised through its own testcases -/
+def gateSites : List String := {lean_list([lean_str(p) for p in tabs['sites']['names']], 2)}
+
+/-- site ↦ (opsets at which the live `to_onnx` exported it, opsets at which it raised – the explicit error the
+    property allows) -/
+def siteRuns : List (String × List Nat × List Nat) := {se}
+
+/-- distinct typed default-domain node forms (any depth) of the site exports -/
+def siteForms : List (String × List (Nat × Nat × Nat × List String × List Nat × List Nat)) := {sf}
 
 end J2O.Gen.C11
 """
@@ -321,7 +393,7 @@ def _component_of(desc: dict) -> tuple[str, str]:
     return "program", desc.get("name", "")
 
 
-def export_plan(chk: Check, rng: common.Rng, thorough: bool) -> list:
+def export_plan(chk: Check, rng: common.Rng, thorough: bool, site_plan: Optional[list] = None) -> list:
     import progs
     mx = progs.max_opset()
     opsets = list(range(progs.BASELINE_OPSET, mx + 1))
@@ -337,6 +409,7 @@ def export_plan(chk: Check, rng: common.Rng, thorough: bool) -> list:
     for name in GATE_PROGRAMS:
         for v in opsets:
             plan.append((_gate_desc(name), dict(progs.default_cfg(), opset=v, **_gate_cfg(name))))
+    plan += list(site_plan or [])
     # seeded combinations outside the tabulated catalogue: component × wrapper × element type × mode × opset
     for _ in range(70 if not thorough else 1200):
         comp = rng.choice(progs.GATED_COMPS)
@@ -416,7 +489,11 @@ def numeric_agreement(ex, ref, rng_np) -> Optional[dict]:
     return None
 
 
+TYPED_WHY = ("input-type", "type-variable", "output-type", "attribute-type", "required-attribute")
+
+
 def run(chk: Check) -> None:
+    import c11_gates
     import modeltree
     import oracles
     import progs
@@ -429,20 +506,28 @@ def run(chk: Check) -> None:
                         "gate_programs": tabs["gate"]["programs"], "gate_exports": len(tabs["gate"]["exported"]),
                         "gate_distinct_forms": len(tabs["gate"]["forms"]),
                         "gate_exports_raising": tabs["gate"]["raised"][:10]})
+    st = tabs["sites"]
+    chk.info("gate_sites", {"sites": st["names"], "exports": len(st["exported"]), "raised": st["raised"][:20],
+                            "distinct_forms": len(st["forms"]), "decision_flips": st["flips"],
+                            "source_scan": st["scanned"], "thresholds_outside_21_max_reported_only": st["not_in_range"],
+                            "sites_without_testcases": st["no_testcases"]})
     proved = chk.prove(MODS, checker=thorough)
     chk.log(f"phase prove done at {round(time.time() - chk.t0, 1)} s")
 
     # rows of the tables judged by the model (interpreter) – locates broken rows, reports 13..20
     rows = [("reduce", v, (op, ni, no, at)) for v, op, ni, no, at in tabs["reduce"]]
     rows += [("swish", v, f) for v, fs in tabs["swish"] for f in fs]
-    rows += [("gate", v, (op, ni, no, list(at), list(dts))) for v, op, ni, no, at, dts in tabs["gate"]["forms"]]
+    rows += [("gate", v, (op, ni, no, list(at), list(dts), list(odts)))
+             for v, op, ni, no, at, dts, odts in tabs["gate"]["forms"]]
+    rows += [("site", v, (op, ni, no, list(at), list(dts), list(odts)))
+             for v, op, ni, no, at, dts, odts in tabs["sites"]["forms"]]
     bad_rows, explored_bad = [], []
     try:
-        req = json.dumps({"op": "forms", "rows": [[v, f[0], f[1], f[2], list(f[3]), list(f[4]) if len(f) > 4 else []]
-                                                   for _, v, f in rows]})
+        req = json.dumps({"op": "forms", "rows": [[v, f[0], f[1], f[2], list(f[3]), list(f[4]) if len(f) > 4 else [],
+                                                    list(f[5]) if len(f) > 5 else []] for _, v, f in rows]})
         ans = json.loads(common.run_driver("C11", [req])[0])
         for (tab, v, f), ok in zip(rows, ans):
-            chk.count({"table": tab, "opset": v, "form": [f[0], f[1], f[2], list(f[3])] + ([list(f[4])] if len(f) > 4 else [])},
+            chk.count({"table": tab, "opset": v, "form": [f[0], f[1], f[2], list(f[3])] + ([list(f[4]), list(f[5])] if len(f) > 5 else [])},
                       nontrivial=v >= 21)
             if not ok:
                 (bad_rows if v >= 21 else explored_bad).append({"table": tab, "opset": v, "form": list(f)})
@@ -450,7 +535,20 @@ def run(chk: Check) -> None:
         chk.log(f"driver unavailable for table rows: {str(e)[:300]}")
     chk.info("table_rows_illegal_in_13_20_reported_only", explored_bad[:20])
 
-    plan, explore = export_plan(chk, rng, thorough)
+    # gate-site testcases: whole models through the proven checker and the oracles (all in thorough, a seeded
+    # sample in quick; the tabulated forms of ALL of them are proved legal in GenProps)
+    site_pairs = [(n, v) for n, v in st["exported"]]
+    site_pick = site_pairs if thorough else rng.sample(site_pairs, min(len(site_pairs), 24))
+    bad_site_opsets = sorted({r["opset"] for r in bad_rows if r["table"] == "site"})
+    if bad_site_opsets:
+        bad_forms = {(r["opset"], r["form"][0]) for r in bad_rows if r["table"] == "site"}
+        site_pick = [(n, v) for n, v in site_pairs if v in bad_site_opsets][:120] + site_pick
+        chk.log(f"illegal gate-site forms {sorted(bad_forms)[:8]}: every site testcase at opsets {bad_site_opsets} "
+                f"goes through the checker first")
+    site_plan = [(progs.plugin_desc(st["descs"][n]), progs.plugin_cfg(st["descs"][n], opset=v)) for n, v in site_pick]
+    plan, explore = export_plan(chk, rng, thorough, [] if bad_site_opsets else site_plan)
+    if bad_site_opsets:
+        plan = site_plan + plan
     if bad_rows:
         # targeted search: testcases whose plugin metadata names an operator of a broken row, at that opset
         bad_ops = {r["form"][0] for r in bad_rows}
@@ -483,7 +581,7 @@ def run(chk: Check) -> None:
                 raised[k] = raised.get(k, 0) + 1
                 continue
             is_explore = int(ex.cfg["opset"]) < 21        # 13..20: explored and reported only
-            tree = modeltree.from_proto(ex.proto, with_vinfo=True)
+            tree = c11_gates.typed_tree(ex.proto)
             done.append((ex, tree, is_explore))
             lines.append(modeltree.request("legal", tree))
         answers = common.run_driver("C11", lines)
@@ -509,7 +607,7 @@ def run(chk: Check) -> None:
                 wher, dom, op, why = (r.split("|") + ["", "", "", ""])[:4]
                 concrete += 1
                 w0 = why.split(" ")[0]
-                kind = "input_type_illegal" if w0 in ("input-type", "type-variable") else "op_not_in_opset"
+                kind = "input_type_illegal" if w0 in TYPED_WHY else "op_not_in_opset"
                 chk.finding({"kind": kind, "op_type": op, "why": w0,
                              "context": ctx_, "component": comp, "opset": v},
                             f"{progs.describe(ex.desc)} exported at opset {v}: {op} {why}",
@@ -534,7 +632,7 @@ def run(chk: Check) -> None:
                        "opset": v}
                 if blamed:
                     typed = any(r.split("|")[2] == blamed[0] and
-                                r.split("|")[3].split(" ")[0] in ("input-type", "type-variable") for r in reasons)
+                                r.split("|")[3].split(" ")[0] in TYPED_WHY for r in reasons)
                     key = {"kind": "input_type_illegal" if typed else "op_not_in_opset", "op_type": blamed[0],
                            "why": "oracle", "context": ctx_, "component": comp, "opset": v, "oracle": f["oracle"]}
                 concrete += 1
@@ -578,7 +676,8 @@ def run(chk: Check) -> None:
     chk.coverage["exhaustive"] = False
     chk.assumptions += [
         "the installed onnx.defs is the definition of what each opset contains",
-        "attribute values and input element types are not modelled (left to onnx.checker / ORT)",
+        "attribute VALUES are not modelled (left to onnx.checker / ORT); attribute types, required attributes and "
+        "input/output element types are checked against onnx.defs where the model declares them",
         "an export that raises at an opset is the 'explicit error' the property allows",
         "ORT limitations (opset 27 unsupported by ORT 1.30, operators without CPU kernel) are reported, not failures",
         "numeric agreement is sampled with one random feed per pair, rtol 1e-3 / atol 1e-4",
@@ -598,7 +697,8 @@ def replay(path: str) -> int:
     if not ex.ok:
         print("export raises now (explicit error):", ex.error)
         return 0
-    tree = modeltree.from_proto(ex.proto, with_vinfo=True)
+    import c11_gates
+    tree = c11_gates.typed_tree(ex.proto)
     ans = common.run_driver("C11", [modeltree.request("legal", tree)])[0]
     print("checker:", ans)
     try:
